@@ -1,5 +1,6 @@
 From Coq Require Import ZArith List.
-From PV Require Import Base.U64 C01.C01_Model C01.C01_Tac C01.C01_Excl.
+From PV Require Import Base.U64 E3.E3_Run C01.C01_Model C01.C01_Tac C01.C01_Excl C01.C01_Inv2 C01.C01_I2
+  C01.C01_Handoff C01.C01_Finding C01.C01_Spin_Model C01.C01_Spin_Proofs.
 Theorem mutex_excl_plain : forall s, reachable s ->
   forall m t1 t2, recursive (mx s m) = false ->
     (cnt (th s t1) m > 0)%nat -> (cnt (th s t2) m > 0)%nat -> t1 = t2.
@@ -9,3 +10,44 @@ Theorem holder_is_owner_plain : forall s, reachable s ->
   forall m t, recursive (mx s m) = false -> (cnt (th s t) m > 0)%nat -> owner (mx s m) = Some t.
 Proof. exact holder_is_owner_plain_l. Qed.
 Print Assumptions holder_is_owner_plain.
+Theorem waitq_consistent : forall s, reachable s -> forall m,
+  NoDup (wqm (mx s m)) /\
+  forall x, In x (wqm (mx s m)) -> wq (th s x) = Some m /\ st (th s x) = SLEEPING /\ pcwait (pc (th s x)) m = true.
+Proof. exact waitq_consistent_l. Qed.
+Print Assumptions waitq_consistent.
+Theorem handoff_target : forall s, reachable s -> forall u m x,
+  pc (th s u) = PUst m (Some x) \/ pc (th s u) = PUint m x ->
+  hd_error (wqm (mx s m)) = Some x /\ wq (th s x) = Some m /\ st (th s x) = SLEEPING /\
+  tlock (th s x) = Some (HT u) /\ xp (th s x) = false /\ x <> u.
+Proof. exact handoff_target_l. Qed.
+Print Assumptions handoff_target.
+Theorem handoff_excludes : forall s, reachable s -> forall u m x,
+  pc (th s u) = PUst m (Some x) \/ pc (th s u) = PUint m x ->
+  xp (th s x) = false /\ forall i e, pc (th s i) = PI3 x e -> False.
+Proof. exact handoff_excludes_l. Qed.
+Print Assumptions handoff_excludes.
+Theorem handoff_step : forall s, reachable s -> forall u m x s',
+  pc (th s u) = PUint m x -> step s (LStep u) = Some s' ->
+  wqm (mx s' m) = tl (wqm (mx s m)) /\ err (th s' x) = (-1)%Z /\ wq (th s' x) = None /\
+  (st (th s' x) = READY \/ st (th s' x) = STANDBY) /\ owner (mx s' m) = owner (mx s m) /\
+  forall y, y <> x -> In y (wqm (mx s m)) -> In y (wqm (mx s' m)) /\ st (th s' y) = SLEEPING.
+Proof. exact handoff_step_l. Qed.
+Print Assumptions handoff_step.
+Theorem lock_result_refuted :
+  exists s, reachable s /\ aintr s = false /\ lock_failed_but_owner s 1%nat 0%nat.
+Proof. exact lock_result_refuted_l. Qed.
+Print Assumptions lock_result_refuted.
+Theorem tas_excl : forall scr s, tas_reach scr s ->
+  forall p q, t_ins (tl_th s p) = true -> t_ins (tl_th s q) = true -> p = q.
+Proof. exact tas_excl_l. Qed.
+Print Assumptions tas_excl.
+Theorem ticket_excl : forall scr s, tkl_reach scr s ->
+  forall p q, t_ins (kl_th s p) = true -> t_ins (kl_th s q) = true -> p = q.
+Proof. exact ticket_excl_l. Qed.
+Print Assumptions ticket_excl.
+Theorem ticket_fifo : forall scr s, tkl_reach scr s ->
+  forall p, t_ins (kl_th s p) = true ->
+    kl_tkt s p = Some (kl_serv s) /\
+    forall q t, q <> p -> kl_tkt s q = Some t -> (kl_serv s < t < kl_next s)%Z.
+Proof. exact ticket_fifo_l. Qed.
+Print Assumptions ticket_fifo.
